@@ -8,6 +8,9 @@ import DadiVerif.Generated.DemesProg
 import DadiVerif.Lemmas.DemesProgWiring
 import DadiVerif.Lemmas.DemesProgParams
 import DadiVerif.Lemmas.DemesProgCompute
+import DadiVerif.Lemmas.DemesProgScale
+import DadiVerif.Lemmas.DemesFrozen
+import DadiVerif.Lemmas.DemesExport
 /-!
 # C16 — demes graphs vs native dadi models: units, wiring, order, export
 
@@ -1028,5 +1031,156 @@ theorem C16_source_import (g : Graph InEpoch) (hnd : (g.demes.map (·.name)).Nod
     Gen.DemesProg.sfsImport lib g sp fz Ne θ γ η = importCF g lib sp fz Ne θ γ η := by
   rw [C16_source_sfs]
   exact sfsImportRef_eq demePresent_text marginalizeCond_text (by decide) migEntry_text g hnd lib sp fz Ne θ γ η
+
+/-- the generated size formulas under a common scaling of the sizes and the reference size (the facts `Lemmas/DemesProgScale.lean` needs) -/
+theorem scaleFacts (ex lg : ℚ → ℚ) (pw : ℚ → ℚ → ℚ) : ScaleFacts ex lg pw := by
+  refine ⟨?_, ?_, ?_, ?_⟩
+  · intro a a' Ne c hc h
+    simp only [nuConstList, Sym.eval, h, mul_div_mul_left _ _ hc]
+  · intro a a' b b' Ne T t c hc h1 _
+    simp only [nuConstFn, Sym.eval, h1, mul_div_mul_left _ _ hc]
+  · intro a a' b b' Ne T t c hc h1 h2
+    simp only [nuLinear, Sym.eval, h1, h2, mul_div_mul_left _ _ hc, ← mul_sub]
+    rw [← mul_assoc, mul_comm (t / T) c, mul_assoc, mul_div_mul_left _ _ hc]
+  · intro a a' b b' Ne T t c hc h1 h2
+    simp only [nuExp, Sym.eval, h1, h2, mul_div_mul_left _ _ hc]
+
+/-- **Whole import, other reference size of the graph — on the source.**  Write the same history with sizes and times multiplied by `c > 0`
+    and migration rates divided by `c` (the library then reports the same discrete events at the scaled times), and scale an explicit
+    reference size along (the default — the root's size — does by itself): the generated tail of `SFS` produces the same history of `phi`,
+    call by call — `phi_1D` with the same relative root size, every `dadi.Integration.<d>_pops` call with the same `T`, migration matrix,
+    frozen flags, deme order and the same value of every size argument at every fraction of `T` (arbitrary `exp`, `log`, power), every
+    `_split_phi` / `_admix_*` / `remove_pop` / `reorder_pops` call with the same arguments — and raises in the same cases.
+    (`C16_compose_scale` as a statement about the translated source.) -/
+theorem C16_source_scale (ex lg : ℚ → ℚ) (pw : ℚ → ℚ → ℚ) {c : ℚ} (hc : 0 < c) (g : Graph InEpoch) (hnd : (g.demes.map (·.name)).Nodup)
+    (lib : LibEvents) (sp fz : List DName) (Ne : Option ℚ) (θ : ℚ) (γ η : Option ℚ) (frac : ℚ) :
+    (Gen.DemesProg.sfsImport (lib.scale c) (g.rescale c c) sp fz (Ne.map (c * ·)) θ γ η).map (Trace.ev ex lg pw frac)
+      = (Gen.DemesProg.sfsImport lib g sp fz Ne θ γ η).map (Trace.ev ex lg pw frac) := by
+  have hnd' : ((g.rescale c c).demes.map (·.name)).Nodup := by
+    rw [show (g.rescale c c).demes = g.demes.map (GDeme.rescale c c) from rfl, map_name_rescale]
+    exact hnd
+  rw [C16_source_import g hnd, C16_source_import (g.rescale c c) hnd']
+  exact importCF_rescale (scaleFacts ex lg pw) hc g lib sp fz Ne θ γ η frac
+
+/-- **Whole import, order of the sampled demes — on the source** (present-day samples): another order `sampled'` of the same demes changes
+    nothing up to the end of `_compute_sfs` (same marginalisations, same calls, same population order); only the final
+    `reorder_pops(phi, [current.index(p)+1 for p in sampled'])` and the `pop_ids` of `from_phi` follow the new order. -/
+theorem C16_source_order (g : Graph InEpoch) (hnd : (g.demes.map (·.name)).Nodup) (lib : LibEvents) (sp sp' fz : List DName) (Ne : Option ℚ)
+    (θ : ℚ) (γ η : Option ℚ) (hmem : ∀ x, sp'.contains x = sp.contains x) :
+    Gen.DemesProg.sfsImport lib g sp' fz Ne θ γ η = (importCore g lib sp fz Ne θ γ η).bind fun r =>
+      (sp'.mapM fun x => (pyIndex r.2 x).map (· + 1)).map fun order => r.1 ++ [PCall.reorder order] ++ [PCall.fromPhi sp'] := by
+  rw [C16_source_import g hnd, importCF_core, importCore_congr g lib sp sp' fz Ne θ γ η hmem]
+
+/-- non-vacuity of the two theorems: `exGraph` with its split, sampled (2, 1); doubled -/
+private def exLib : LibEvents := { pulses := [], branches := [], mergers := [], admixtures := [], splits := [{ parent := ⟨0, []⟩, children := [⟨1, []⟩, ⟨2, []⟩], time := 20 }] }
+
+example : ((Gen.DemesProg.sfsImport exLib exGraph [⟨2, []⟩, ⟨1, []⟩] [] none 1 none none).map fun t => t.length) = some 5
+    ∧ ((Gen.DemesProg.sfsImport (exLib.scale 2) (exGraph.rescale 2 2) [⟨2, []⟩, ⟨1, []⟩] [] none 1 none none).map fun t => t.length) = some 5 := by
+  decide +kernel
+
+/-! ## round 5: the frozen branch of an ancient sample under a change of the reference size -/
+
+/-- **Ancient samples, sizes in other units.**  Write the graph with times × a, sizes × b, rates / b (a = b = c: another reference size) and
+    the sample times × a: `_augment_with_ancient_samples` returns the augmented graph written in those units — sliced / renamed demes (sizes
+    of cut epochs evaluated), migrations, pulses, names carrying `a·x` — EXCEPT that the appended frozen branches (exactly the demes of the
+    frozen list, in its order) keep `start_size = 1`: their times are in the new unit, their size is not rescaled.  Equivalently: it is the
+    rescaling of the augmented graph whose frozen branches have size `1 / b`.  So under a change of the reference size (b = c, Ne × c) every
+    parameter dadi receives is unchanged (`C16_source_scale` applied to that graph) except the relative size of the frozen branches, which
+    is `1 / (c·Ne)` instead of `1 / Ne`. -/
+theorem C16_units_ancient_sizes (ex lg : ℚ → ℚ) (pw : ℚ → ℚ → ℚ) {a b : ℚ} (ha : 0 < a) (hb : b ≠ 0) (g : Graph InEpoch) (sampled : List DName)
+    (times : List ℚ) (hlen : sampled.length = times.length) (hbase : ∀ n ∈ sampled, n.stamps = []) (hg : g.namesBase) :
+    (augment (g.rescale a b) sampled (times.map (a * ·))).demes.map (GDeme.ev ex lg pw)
+        = ((((augment g sampled times).demes.map (GDeme.ev ex lg pw)).take (sliceGraph (listMin times) g).demes.length)
+            ++ (((augment g sampled times).demes.map (GDeme.ev ex lg pw)).drop (sliceGraph (listMin times) g).demes.length).map (GDeme.rescaleEv 1 (1 / b))).map
+            (fun d => GDeme.rename (DName.smap a) (GDeme.rescaleEv a b d))
+    ∧ ((augment g sampled times).demes.drop (sliceGraph (listMin times) g).demes.length).map (·.name) = (augment g sampled times).frozen
+    ∧ (augment (g.rescale a b) sampled (times.map (a * ·))).migs
+        = (augment g sampled times).migs.map (fun m => GMig.rename (DName.smap a) (GMig.rescale a b m))
+    ∧ (augment (g.rescale a b) sampled (times.map (a * ·))).pulses
+        = (augment g sampled times).pulses.map (fun p => GPulse.rename (DName.smap a) (GPulse.rescale a p))
+    ∧ (augment (g.rescale a b) sampled (times.map (a * ·))).frozen = (augment g sampled times).frozen.map (DName.smap a)
+    ∧ (augment (g.rescale a b) sampled (times.map (a * ·))).sampled = (augment g sampled times).sampled.map (DName.smap a) := by
+  obtain ⟨h1, h2, h3, h4, h5, h6⟩ := augment_rescale_sizes (fun g s t h1 h2 => C16_ancient_branch g s t h1 h2) ex lg pw ha hb g sampled times hlen hbase hg
+  refine ⟨?_, h2, h3, h4, h5, h6⟩
+  rw [h1, List.map_append, List.map_map]
+  congr 1
+  apply List.map_congr_left
+  intro d _
+  simp only [Function.comp_def, GDeme.rescaleEv, List.map_map, EvEpoch.rescale, Option.map_map]
+  congr 1
+  congr 1
+  · cases d.start <;> simp [tscale]
+  · apply List.map_congr_left
+    intro e _
+    have hbb : ∀ x : ℚ, b * (1 / b * x) = x := fun x => by field_simp
+    simp only [EvEpoch.rescale, hbb, one_mul]
+
+/-- non-vacuity: deme 1 of `exGraph` sampled now and 7 ago; sizes and times doubled: the branch `1~14` starts at 14 and has size 1, not 2 -/
+example :
+    ((augment (exGraph.rescale 2 2) [⟨1, []⟩, ⟨1, []⟩] [0, 14]).demes.map fun d => (d.name, d.start, d.epochs.map (·.ss)))
+      = [(⟨0, []⟩, none, [200]), (⟨1, []⟩, some 40, [100]), (⟨2, []⟩, some 40, [160]), (⟨1, [14]⟩, some 14, [1])] := by
+  decide +kernel
+
+/-- **A frozen population's size is never used — except by `_compute_dt`.**  In the model of the integrators (C02 / C04): one time step
+    (mutation injection, which skips frozen populations, and the sweep over the axes, which skips the frozen axis — C04_frozen_axis_skipped —
+    and reads for every other axis that axis's own parameters) is the same whatever the parameters of a frozen population are; and the
+    constant-parameter driver gives the same density for two parameter sets that differ only in a frozen population PROVIDED they lead to
+    the same time step.  The time step is `min` over ALL populations of `timescale_factor / max(0.25 / nu, Σm, …)`, frozen ones included:
+    a frozen branch of relative size `1 / Ne` imposes `dt ≤ timescale_factor · 4 / Ne`.  That is the only dependence — it explains why a
+    hand-written frozen model matches `from_demes` bit for bit only with the same `nu`, and why the spectra for two reference sizes differ
+    by a time-discretisation error that vanishes with the step. -/
+theorem C16_frozen_nu_only_dt (grids : List (Array ℚ)) (fr nm : List Bool) (use : Bool) (eps : ℕ → List ℕ → ℕ → ℚ) (tf : ℚ) (P : StepParams)
+    (k : ℕ) (p : PopParams) (hk : fr.getD k false = true) :
+    (∀ (dt : ℚ) (T : List ℕ → ℚ), sweepFn grids fr nm use eps (P.setPop k p) dt T = sweepFn grids fr nm use eps P dt T)
+    ∧ (stepDt tf (P.setPop k p) = stepDt tf P → ∀ (Tend : ℚ) (fuel : ℕ) (t : ℚ) (φ : List ℕ → ℚ),
+        integrateConst (fun P dt φ => sweepFn grids fr nm use eps P dt φ) tf (P.setPop k p) Tend fuel t φ
+          = integrateConst (fun P dt φ => sweepFn grids fr nm use eps P dt φ) tf P Tend fuel t φ)
+    ∧ stepDt tf P = (P.pops.map (popDt tf)).foldl optMin none :=
+  ⟨fun dt T => sweepFn_frozen_indep grids fr nm use eps P dt T k p hk,
+   fun hdt Tend fuel t φ => integrateConst_frozen grids fr nm use eps tf P Tend k p hk hdt fuel t φ, rfl⟩
+
+/-- the dependence is real: two populations, the second frozen with relative size 1/1000 or 1/500: the time step halves -/
+example :
+    stepDt (1/1000) { pops := [{ nu := 1, gamma := 0, h := 1/2, ms := [0] }, { nu := 1/1000, gamma := 0, h := 1/2, ms := [0] }], theta0 := 1, beta := none } = some (1/250000)
+    ∧ stepDt (1/1000) { pops := [{ nu := 1, gamma := 0, h := 1/2, ms := [0] }, { nu := 1/500, gamma := 0, h := 1/2, ms := [0] }], theta0 := 1, beta := none } = some (1/125000)
+    ∧ stepDt (1/1000) { pops := [{ nu := 1, gamma := 0, h := 1/2, ms := [0] }, { nu := 1, gamma := 0, h := 1/2, ms := [0] }], theta0 := 1, beta := none } = some (1/250) := by
+  decide +kernel
+
+/-! ## round 5: export followed by import, and the hypothesis that excludes the known findings -/
+
+/-- **Export, then import, at a `Split` record — and exactly which programs the known finding F-16f concerns.**  `Demes.output` renames every
+    population at every `Split` record (older demes `d1_*` end at the record's time, younger `d2_*` start there; `boundaryGraph`).  On the
+    model (library classification `classifyEvents`, hand-written from the demes source and K-tied; application by the generated
+    `_apply_event` = `applyEventSpec`), for every number n = 1 … 4 of older populations (dadi integrates at most five):
+    * **clean record** (the new population copies ONE older population p: exactly one non-zero proportion — `phi_1D_to_2D`,
+      `phi_2D_to_3D_split_*`, a unit vector in `phi_3D_to_4D` / `phi_4D_to_5D`): the library reports n splits, n − 1 of them renamings with
+      one child; applying them reproduces the program's event: ONE `_split_phi` call, whose parent `d1_p` sits on axis p at that moment, and
+      afterwards the populations are `d2_0 … d2_n` in axis order — the same event list up to the deme names;
+    * **admixture-created population** (two or more non-zero proportions): the older demes of non-zero proportion all end at the new deme's
+      start, so the library reports a MERGER; `_apply_event` removes the merger's parents and the renaming split of such a parent then does
+      not find it: the import raises (`'d1_1' is not in list`) — the open known finding `export:…:admixture…:raises`;
+    * **pulse directly followed by a new population**: the pulse is exported at the record's time, which is the end time of its (renamed)
+      destination: demes rejects such a pulse (`pulseValid`), while the same pulse strictly before that time is valid — the other open known
+      finding.
+    The hypothesis that excludes the known findings is therefore: every `Split` record has exactly one non-zero proportion, and a positive
+    integration time separates every pulse from the next `Split` record. -/
+theorem C16_export_roundtrip :
+    (∀ n ∈ [1, 2, 3, 4], ∀ p ∈ List.range n,
+        importBoundary (unitProps n p) 5
+          = some ([PCall.split (((List.range n).map fun j => if j < p then eraName 2 j else eraName 1 j)) (eraName 1 p)
+                    (((List.range n).map fun j => if j ≤ p then eraName 2 j else eraName 1 j) ++ [eraName 2 n])],
+                  (List.range (n + 1)).map (eraName 2)))
+    ∧ (∀ n ∈ [2, 3, 4], ∀ m ∈ List.range (2 ^ n), 2 ≤ ((List.range n).filter fun j => m.testBit j).length →
+        (classifyEvents (boundaryGraph (maskProps n m) 5)).mergers.length = 1 ∧ importBoundary (maskProps n m) 5 = none)
+    ∧ (∀ n ∈ [2, 3, 4], ∀ d ∈ List.range n, ∀ s ∈ List.range n, s ≠ d →
+        pulseValid (boundaryGraph (unitProps n 0) 5) { sources := [eraName 1 s], dest := eraName 1 d, props := [1/10], time := 5 } = false
+        ∧ pulseValid (boundaryGraph (unitProps n 0) 5) { sources := [eraName 1 s], dest := eraName 1 d, props := [1/10], time := 6 } = true) := by
+  refine ⟨by decide +kernel, by decide +kernel, by decide +kernel⟩
+
+/-- one row of the table spelled out: three populations, the new one copies population 1 -/
+example : importBoundary (unitProps 3 1) 5
+    = some ([PCall.split [eraName 2 0, eraName 1 1, eraName 1 2] (eraName 1 1) [eraName 2 0, eraName 2 1, eraName 1 2, eraName 2 3]],
+            [eraName 2 0, eraName 2 1, eraName 2 2, eraName 2 3]) := by
+  decide +kernel
 
 end DadiVerif
